@@ -191,6 +191,10 @@ Definition good (c : config) (ts : list task) (h : Z) (t : nat) : bool := serves
 Definition wrong_free (c : config) (ts : list task) (h : Z) (view : list nat) : bool :=
   forallb (fun t => match c_beh c (task_peer ts t) h with RWrong _ => false | _ => true end) view.
 
+(** no peer of the view stays silent for this height *)
+Definition stall_free (c : config) (ts : list task) (h : Z) (view : list nat) : bool :=
+  forallb (fun t => negb (is_stall (c_beh c (task_peer ts t) h))) view.
+
 Lemma existsb_remove_nth (f : nat -> bool) (l : list nat) i :
   existsb f l = true -> f (nth i l 0) = false -> existsb f (remove_nth i l) = true.
 Proof.
